@@ -60,6 +60,8 @@ class SimServer:
         self.dep = deployment
         self.cfg = cfg
         self.pool = int(cfg.get("pool", 10))
+        self.index = getattr(sim, "_nservers", 0)
+        sim._nservers = self.index + 1
         self.generation = 0
         self.inbox: list[tuple] = []
         self.proc: Any = None
@@ -77,14 +79,15 @@ class SimServer:
 
         sim = self.sim
         self.generation += 1
-        self.proc = sim.proc("SRV%d" % self.generation)
+        tag = "" if self.index == 0 else "%d_" % self.index
+        self.proc = sim.proc("SRV%s%d" % (tag, self.generation))
         self.down = False
         # the backend object is created in the server process
         prev = sim.cur
         self.inner = self.dep._new_inner(self.proc)
         self.servicer = smod.OptunaStorageProxyService(self.inner)
         for i in range(self.pool):
-            t = sim.spawn(self.proc, "srv%d.%d" % (self.generation, i), self._worker)
+            t = sim.spawn(self.proc, "srv%s%d.%d" % (tag, self.generation, i), self._worker)
             t.daemon = True
 
     def crash(self) -> None:
